@@ -149,6 +149,8 @@ pub enum LInput {
     /// a message of the pool, by id
     Pool(u32),
     ZProposal(v2::ProposalJustification, Option<Payload>),
+    /// a proposal of the faulty leader whose justification does NOT verify (signed by the faulty key alone)
+    ZForgedProposal(v2::ProposalJustification, Option<Payload>),
     ZNewView(v2::ProposalJustification),
     ZCommit(v2::ReplicaCommit),
     ZTimeout(v2::ReplicaTimeout),
@@ -506,6 +508,22 @@ fn actions_uncached(sys: &Sys, t: &Tables, g: &G, only: usize) -> Vec<Action> {
                 out.push(Action { replica: ri, desc: format!("v{vi} receives a new-view for view {jv} from the faulty validator [{jn}]"), inputs: vec![LInput::ZNewView(j.clone())], restart: false, key: 0, crash_lost: false });
             }
         }
+        // ... and proposals whose justification does not verify: a timeout / commit certificate for the previous
+        // view signed by the faulty key alone (a replica that already holds a certificate for that view must
+        // still check the one it is given)
+        for jv in view.max(1)..=sys.max_view + 1 {
+            if w.leader(jv) != sys.z {
+                continue;
+            }
+            let forged_t = v2::ProposalJustification::Timeout(w.timeout_qc(jv - 1, &[(sys.z, w.timeout_vote(jv - 1, None, None))]));
+            let next = w.c.genesis.first_block.0 + l.blocks.len() as u64;
+            let forged_c = v2::ProposalJustification::Commit(w.commit_qc(&w.commit_vote(jv - 1, next, &py), 1 << sys.z));
+            for (jn, j, payloads) in [("timeout certificate", forged_t, vec![Some(px.clone()), Some(py.clone())]), ("commit certificate", forged_c, vec![Some(px.clone())])] {
+                for p in payloads {
+                    out.push(Action { replica: ri, desc: format!("v{vi} receives the faulty leader's proposal for view {jv} justified by a {jn} for view {} signed by the faulty key alone, payload {:x?}", jv - 1, p.as_ref().map(|p| p.0.clone())), inputs: vec![LInput::ZForgedProposal(j.clone(), p)], restart: false, key: 0, crash_lost: false });
+                }
+            }
+        }
         T_ZMSG.fetch_add(tz.elapsed().as_micros() as u64, std::sync::atomic::Ordering::Relaxed);
     }
     let tk = std::time::Instant::now();
@@ -542,6 +560,7 @@ pub fn content_key(t: &Tables, a: &Action) -> u64 {
             LInput::Ready(Input::Propose(j)) => mix(fx_hash(&("propose", bftmsgs::ajust(j)))),
             LInput::Ready(Input::Sync(b)) => mix(fx_hash(&("sync", b.number().0, bftmsgs::ph(&b.payload.hash())))),
             LInput::ZProposal(j, p) => mix(fx_hash(&("zprop", bftmsgs::ajust(j), p.as_ref().map(|p| p.0.clone())))),
+            LInput::ZForgedProposal(j, p) => mix(fx_hash(&("zforged", bftmsgs::ajust(j), p.as_ref().map(|p| p.0.clone())))),
             LInput::ZNewView(j) => mix(fx_hash(&("znv", bftmsgs::ajust(j)))),
             LInput::ZCommit(c) => mix(fx_hash(&("zc", avote(c)))),
             LInput::ZTimeout(tm) => mix(fx_hash(&("zt", tm.view.number.0, tm.high_vote.as_ref().map(avote), tm.high_qc.as_ref().map(acqc)))),
@@ -565,7 +584,7 @@ fn materialise(sys: &Sys, t: &Tables, i: &LInput) -> Input {
     match i {
         LInput::Ready(x) => x.clone(),
         LInput::Pool(id) => Input::Msg(t.msgs[*id as usize].msg.clone()),
-        LInput::ZProposal(j, p) => Input::Msg(w.proposal(sys.z, j, p.clone())),
+        LInput::ZProposal(j, p) | LInput::ZForgedProposal(j, p) => Input::Msg(w.proposal(sys.z, j, p.clone())),
         LInput::ZNewView(j) => Input::Msg(w.new_view(sys.z, j)),
         LInput::ZCommit(c) => Input::Msg(w.signed_commit(sys.z, c)),
         LInput::ZTimeout(tm) => Input::Msg(w.signed_timeout(sys.z, tm)),
